@@ -117,10 +117,11 @@ def type_signature(parameters: list[Parameter], return_type_ref: TypeReference, 
             return_type_signature = return_type_ref.type_def.jni.type_signature
     return f"({parameter_type_signatures}){return_type_signature}"
 
+def jni_escape(segment: str) -> str:
+    return segment.replace("_", "_1").replace("$", "_00024")
+
 def jni_prefix(segments: list[str]):
-    segments = [segment.replace("_", "_1") for segment in segments]
-    segments = [segment.replace("$", "_00024") for segment in segments]
-    return "_".join(["Java"] + segments)
+    return "_".join(["Java"] + [jni_escape(segment) for segment in segments])
 
 class JniBaseType(BaseModel):
     decl: BaseType = Field(exclude=True, repr=False)
@@ -271,6 +272,11 @@ class JniInterface(JniBaseType):
         @cached_property
         def name(self) -> str:
             return self.decl.name.convert(self.config.identifier.method)
+
+        @cached_property
+        def native_symbol(self) -> str:
+            # the escaped name of the native method that the Java CppProxy class declares for this method
+            return jni_escape(self.decl.java.name if self.decl.static else f"native_{self.decl.java.name}")
 
         @cached_property
         def type_signature(self) -> str: return type_signature(self.decl.parameters, self.decl.return_type_ref, self.decl.asynchronous)
